@@ -96,10 +96,8 @@ SkipEnd == mode = "skip" /\ IsEv("End") /\ LET r == Rec[l] IN
 
 EndOk(r, F, RR) ==
     /\ r.end = F.end /\ r.rows = F.rows
-    \* any-input clause on the observation; the as-coded model explains a
-    \* non-monotone observation only for `merged` runs, which are flagged
-    /\ InRange(r.rows, H.asz)
-    /\ (Monotone(r.rows) \/ (F.merged /\ PrintT(<<"NONMONO", l>>)))
+    \* any-input clause on the observation
+    /\ InRange(r.rows, H.asz) /\ Monotone(r.rows)
     /\ SequencesConsistent(F, RR)
     /\ IF F.end = "done"
        THEN /\ r.seqs.ok /\ Len(r.seqs.list) = Len(F.seqs)
@@ -107,7 +105,7 @@ EndOk(r, F, RR) ==
                  /\ r.seqs.list[k].start = F.seqs[k].start /\ r.seqs.list[k].end = F.seqs[k].end
                  /\ r.seqs.list[k].rows = RR[k].rows /\ r.seqs.list[k].rend = "done"
                  /\ InRange(r.seqs.list[k].rows, H.asz)
-                 /\ (Monotone(r.seqs.list[k].rows) \/ F.merged)
+                 /\ Monotone(r.seqs.list[k].rows)
        ELSE ~r.seqs.ok
 End == IsEv("End") /\ mode = "check" /\ LET r == Rec[l] IN
     \E F \in {IF S.end = "run" THEN [S EXCEPT !.end = "done"] ELSE S} :
